@@ -135,11 +135,11 @@ EXPORT errno_t _mbsrtowcs_s_chk(size_t *restrict retvalp,
     mbstate_t orig_ps;
     errno_t rc;
 
-    CHK_SRC_NULL("mbsrtowcs_s", retvalp)
+    CHK_ARG_NULL_TERM("mbsrtowcs_s", retvalp, RSIZE_MAX_WSTR, wchar_t)
     *retvalp = 0;
-    CHK_SRC_NULL("mbsrtowcs_s", ps)
+    CHK_ARG_NULL_TERM("mbsrtowcs_s", ps, RSIZE_MAX_WSTR, wchar_t)
     CHK_SRCW_NULL_CLEAR("mbsrtowcs_s", srcp)
-    CHK_SRC_NULL("mbsrtowcs_s", *srcp)
+    CHK_ARG_NULL_TERM("mbsrtowcs_s", *srcp, RSIZE_MAX_WSTR, wchar_t)
     if (dest) {
         size_t destsz = dmax * sizeof(wchar_t);
         CHK_DMAX_ZERO("mbsrtowcs_s")
